@@ -2334,9 +2334,10 @@ class Experiment:
 
     def _store_extracted_input_ids(self):
         # VV: Storing these as JSON enable us to read them as either JSON or YAML
+        # VV: readers (e.g. the st4sd API) may open the file at any time, never leave a truncated one behind
         path = os.path.join(self.instanceDirectory.outputDir, 'input-ids.json')
-        with open(path, 'w') as f:
-            json.dump(self.get_input_ids(return_copy=False), f, indent=4, separators=(',', ': '))
+        experiment.model.conf.FlowIRExperimentConfiguration._replace_file_atomically(
+            path, lambda f: json.dump(self.get_input_ids(return_copy=False), f, indent=4, separators=(',', ': ')))
 
     def set_interface_additional_input_data(self, additional_input_data: Dict[str, List[str]], store_on_disk=True):
         """Register/Modify additional data for input ids
@@ -2364,12 +2365,14 @@ class Experiment:
     def _store_additional_input_data(self):
         # VV: Storing these as JSON enable us to read them as either JSON or YAML
         path = os.path.join(self.instanceDirectory.outputDir, 'additional_input_data.json')
-        with open(path, 'w') as f:
-            json.dump(self.get_additional_input_data(return_copy=False), f, indent=4, separators=(',', ': '))
+        experiment.model.conf.FlowIRExperimentConfiguration._replace_file_atomically(
+            path, lambda f: json.dump(self.get_additional_input_data(return_copy=False), f, indent=4,
+                                      separators=(',', ': ')))
 
     def _store_extracted_measured_properties(self):
         path = os.path.join(self.instanceDirectory.outputDir, 'properties.csv')
-        self._measured_properties.to_csv(path, index=False, sep=";")
+        experiment.model.conf.FlowIRExperimentConfiguration._replace_file_atomically(
+            path, lambda f: self._measured_properties.to_csv(f, index=False, sep=";"))
 
     def load_extracted_measured_properties(self, return_copy=True):
         path = os.path.join(self.instanceDirectory.outputDir, 'properties.csv')
